@@ -29,6 +29,7 @@ def P(pid):
     meta = {'explanation': '', 'assumptions': []}
     if pid == 'C01':
         R = [
+            ('RF-S the tests success rests on hold the way round and with the strictness they had', lambda c: rf_senses.rule_acceptance_senses(c, group='bbs', strict=False, only=['::sign', '::verify']), 1),
             ('RF-D identity / zero guards test the value that is used afterwards', rf_gates.rule_guards_test_final_value, 4),
             ('RF-B pass-through arguments keep their role', rf_consts.rule_argument_roles, 40),
             ('RF-A option-normalisation sign/verify', lambda c: rf_consts.rule_option_normalisation(c, [T.SIG + 'sign', T.SIG + 'verify']), 4),
@@ -46,6 +47,7 @@ def P(pid):
                                'from sign and verify (necessary for agreement), ciphersuite constant table. The pairing algebra is not decided.')
     elif pid == 'C02':
         R = [
+            ('RF-S the tests success rests on hold the way round and with the strictness they had', lambda c: rf_senses.rule_acceptance_senses(c, group='bbs', strict=False, only=['::verify']), 1),
             ('RF-E decoder inputs are copied, never computed', rf_frame.rule_decoder_input_integrity, 2),
             ('RF-Y failures of fallible operations are never discarded', rf_errors.rule_errors_not_discarded, 60),
             ('RF-B pass-through arguments keep their role', rf_consts.rule_argument_roles, 40),
@@ -67,6 +69,7 @@ def P(pid):
                                'messages, header and the interface constants in its data-dependence slice. Collision resistance is assumed.')
     elif pid == 'C04':
         R = [
+            ('RF-S the tests success rests on hold the way round and with the strictness they had', lambda c: rf_senses.rule_acceptance_senses(c, group='bbs', strict=False, only=['::proof_verify']), 1),
             ('RF-E decoder inputs are copied, never computed', rf_frame.rule_decoder_input_integrity, 2),
             ('RF-D identity / zero guards test the value that is used afterwards', rf_gates.rule_guards_test_final_value, 4),
             ('RF-Y failures of fallible operations are never discarded', rf_errors.rule_errors_not_discarded, 60),
@@ -90,6 +93,7 @@ def P(pid):
                                'on every constructor path, the disclosed messages stay paired with their indexes (no list of a pair is re-ordered without the other), and the blind verifier keeps signer positions (below L) and committed positions (below M) apart. Knowledge soundness of the sigma protocol itself is not decided.')
     elif pid == 'C06':
         R = [
+            ('RF-S the tests success rests on hold the way round and with the strictness they had', lambda c: rf_senses.rule_acceptance_senses(c, group='bbs', strict=False, only=['::blind_sign', '::blind_proof_verify', 'deserialize_and_validate_commit']), 1),
             ('RF-B committed index translation and signer generator count use L + 1', rf_codec.rule_index_translation, 4),
             ('RF-L the blind verifier keeps signer and committed positions apart', rf_frame.rule_blind_verifier_index_ranges, 4),
             ('RF-D identity / zero guards test the value that is used afterwards', rf_gates.rule_guards_test_final_value, 4),
@@ -123,6 +127,7 @@ def P(pid):
                                'every interface constant. Disjointness of hash-to-curve outputs is assumed, not decided.')
     elif pid == 'C03':
         R = [
+            ('RF-S the tests success rests on hold the way round and with the strictness they had', lambda c: rf_senses.rule_acceptance_senses(c, group='bbs', strict=False, only=['::proof_gen', '::proof_verify']), 1),
             ('RF-B pass-through arguments keep their role', rf_consts.rule_argument_roles, 40),
             ('RF-B message lists handed down whole', rf_consts.rule_list_integrity, 15),
             ('RF-A option-normalisation proof_gen/proof_verify', lambda c: rf_consts.rule_option_normalisation(c, [T.POK + 'proof_gen', T.POK + 'proof_verify']), 8),
@@ -151,6 +156,7 @@ def P(pid):
                                'under cfg(test)) equals the mocked one and the consumer guard. The Schnorr algebra is not decided.')
     elif pid == 'C05':
         R = [
+            ('RF-S the tests success rests on hold the way round and with the strictness they had', lambda c: rf_senses.rule_acceptance_senses(c, group='bbs', strict=False, only=['::commit', '::blind_sign', '::verify_blind_sign', '::blind_proof_gen', '::blind_proof_verify', 'deserialize_and_validate_commit']), 1),
             ('RF-B index normalisation (prover and verifier agree on the canonical index lists)', rf_codec.rule_index_normalisation, 3),
             ('RF-D identity / zero guards test the value that is used afterwards', rf_gates.rule_guards_test_final_value, 4),
             ('RF-B pass-through arguments keep their role', rf_consts.rule_argument_roles, 40),
@@ -212,6 +218,7 @@ def P(pid):
             ('RF-D identity / zero exclusion in decoders', lambda c: rf_gates.rule_accept_requirements(c, T.DECODER_REQS), 6),
             ('RF-D every decoded member is tested for the value its decoder refuses', lambda c: rf_gates.rule_decoded_values_tested(c, T.DECODED_MEMBERS), 8),
             ('RF-D the serde decoders refuse what the octet decoders refuse', rf_codec.rule_serde_checked_decoders, 6),
+            ('RF-S the tests of the octet decoders keep their sense', lambda c: rf_senses.rule_acceptance_senses(c, scope=rf_senses.BBS_DECODER_SCOPE, floor=10, strict=False), 10),
             ('RF-N placeholder variants cannot be built from serialised data', rf_codec.rule_placeholder_variants_not_deserialisable, 4),
             ('RF-D checked constructors only', rf_frame.rule_checked_constructors, 8),
             ('RF-N reader/writer agreement', rf_codec.rule_reader_writer, 2),
@@ -236,6 +243,7 @@ def P(pid):
             ('RF-D identity / zero exclusion in decoders', lambda c: rf_gates.rule_accept_requirements(c, T.DECODER_REQS), 6),
             ('RF-D every decoded member is tested for the value its decoder refuses', lambda c: rf_gates.rule_decoded_values_tested(c, T.DECODED_MEMBERS), 8),
             ('RF-D the serde decoders refuse what the octet decoders refuse', rf_codec.rule_serde_checked_decoders, 6),
+            ('RF-S the tests of the octet decoders keep their sense', lambda c: rf_senses.rule_acceptance_senses(c, scope=rf_senses.BBS_DECODER_SCOPE, floor=10, strict=False), 10),
         ]
         meta['explanation'] = ('Value-level conformance with the drafts cannot be decided statically and is not claimed. Decided clauses: the three size '
                                'limits are enforced exactly (boundary values proven), constants equal the draft table, every hash ingredient set and '
@@ -243,6 +251,7 @@ def P(pid):
                                'cannot depend on thread interleavings.')
     elif pid == 'C12':
         R = [
+            ('RF-S the tests success rests on hold the way round and with the strictness they had', lambda c: rf_senses.rule_acceptance_senses(c, group='bbs', strict=False, only=['::update_signature']), 1),
             ('RF-D identity / zero guards test the value that is used afterwards', rf_gates.rule_guards_test_final_value, 4),
             ('RF-L update_index guard and generator offset', rf_frame.rule_update_index_guard, 2),
             ('RF-B interface constants of update_signature', lambda c: rf_consts.rule_interface_constants(c, [T.SIG + 'update_signature', T.SIG + 'sign']), 6),
